@@ -1149,6 +1149,16 @@ class TagStream(io.TextIOBase):
             raise TypeError('write() argument must be str, not %s' % type(s).__name__)
         if self.ascii_only:
             s.encode('ascii')        # raises UnicodeEncodeError like a strict ascii stream
+        env = CURRENT_ENV
+        if self.tag == 'O' and env is not None and env.knobs.get('stdout_write_fail') and \
+                env.sched.active and env.sched.current is env.sched.main:
+            # a failing system call: the n-th write of the main thread to the parent's stdout
+            # fails once (disk full, pipe gone) - an environment fault at an arbitrary point
+            env.main_writes = getattr(env, 'main_writes', 0) + 1
+            if env.main_writes == env.knobs['stdout_write_fail']:
+                env.sched.probe('stdout_write_fail_injected')
+                env.fired.append('stdout_write_fail')
+                raise OSError(errno.ENOSPC, 'No space left on device (injected)')
         self.log.append((self.tag, s))
         return len(s)
 
